@@ -229,7 +229,7 @@ def sx_project(desc, src="./" + SRC):
         lines = {c["name"]: 1 + next(i for i, l in enumerate(text) if ("fn %s(" % c["name"]) in l) for c in f["commands"]}
         files.append([p, [sx_command(p, c, lines[c["name"]]) for c in f["commands"]],
                       [sx_struct(p, s) for s in f["structs"] if s["name"] in disc and winner[s["name"]] == f["path"]],
-                      [["e", e["name"], e["payload"]] for e in f["events"]]])
+                      [["e", e["name"], e["payload"]] for e in f["events"]], str(len(f["structs"]))])
     return files
 
 
@@ -385,8 +385,10 @@ def reference(desc, entry):
 
 
 def canon(b):
-    """Content modulo the order of lines (declaration order follows hash order: property C13, not ours)."""
-    return sorted(b.split(b"\n"))
+    """Exact content. (Before C13-sort-before-use the declaration order followed hash order and contents were compared
+    modulo the order of lines; generation is deterministic now, and the order of the items is part of the content:
+    swapping two commands of a file changes what is generated.)"""
+    return b
 
 
 def stale_files(world, desc):
@@ -625,6 +627,32 @@ def e_field_case(d):
     _toggle(d["cfg"], "default_field_case", "snake_case", "camelCase")
 
 
+def e_cmd_swap(d):
+    """reorder items within a file"""
+    d["files"][0]["commands"].reverse()
+
+
+def e_cmd_move(d):
+    """move an item to another file (and back)"""
+    fs = d["files"]
+    more = [f for f in fs if f["path"] == "zz_more.rs"]
+    if more:
+        fs[0]["commands"] += more[0]["commands"]
+        fs.remove(more[0])
+    elif len(fs[0]["commands"]) >= 2:
+        fs.append({"path": "zz_more.rs", "structs": [], "events": [], "commands": [fs[0]["commands"].pop()]})
+
+
+def e_unused_struct(d):
+    """add / remove an item nothing refers to"""
+    ss = d["files"][0]["structs"]
+    if any(s_["name"] == "Orphan" for s_ in ss):
+        ss[:] = [s_ for s_ in ss if s_["name"] != "Orphan"]
+    else:
+        ss.append({"name": "Orphan", "is_enum": False, "rename_all": None, "fields": [
+            {"name": "x", "type": "u8", "public": True, "rename": None, "skip": False, "validator": None}]})
+
+
 def e_noise(d):
     f = d["files"][0]
     f["noise"] = not f.get("noise")
@@ -642,7 +670,7 @@ EDITS = {
     "variant_rename": e_variant_rename, "validator": e_validator, "event_name": e_event_name,
     "event_payload": e_event_payload, "event_add": e_event_add, "events_off": e_events_off, "event_site2": e_event_site2, "channel": e_channel, "mode": e_mode,
     "type_mapping": e_type_mapping, "param_case": e_param_case, "field_case": e_field_case,
-    "visualize": e_visualize, "noise": e_noise, "map_target": e_map_target, "map_add": e_map_add, "include_private": e_include_private,
+    "visualize": e_visualize, "noise": e_noise, "cmd_swap": e_cmd_swap, "cmd_move": e_cmd_move, "unused_struct": e_unused_struct, "map_target": e_map_target, "map_add": e_map_add, "include_private": e_include_private,
 }
 
 
